@@ -181,7 +181,13 @@ def havoc_like(ctx, val, name):
     raise Unsupported(f"cannot havoc loop-carried value {name}={val!r}")
 
 
-def run_symbolic_loop(it, coll, bind_target, run_body, body_stmts, env, f, ordinal, collect):
+class Poison:
+    """Value of a loop target variable after a loop over a symbolic collection (not modelled)."""
+    def __repr__(self):
+        return "<loop variable after the loop>"
+
+
+def run_symbolic_loop(it, coll, bind_target, run_body, body_stmts, env, f, ordinal, collect, targets=()):
     from .interp import Env, OutSeq, ContinueSig, BreakSig, ReturnSig, Instance
     ctx = it.ctx
     n = coll.len
@@ -220,6 +226,10 @@ def run_symbolic_loop(it, coll, bind_target, run_body, body_stmts, env, f, ordin
         ctx.assume(in_range(k, n))
         base_len = len(ctx.assumptions)
         results = ctx.explore(body_once)
+        # the loop's own target variables are assigned afresh in every iteration: not loop-carried
+        for t in targets:
+            entry_vars.pop(t, None)
+            env.vars[t] = Poison()
         modified = detect_modified(ctx, entry, entry_vars, results)
         if modified["any"]:
             if spec is None:
